@@ -21,7 +21,7 @@ theorem tame_doCancel (p : Pool) (ids) : Tame p (p.doCancel ids).1 := by
   unfold doCancel
   split
   · exact Tame.refl p
-  · exact tame_foldl ids _ (fun p id => tame_taskCancel p _) p
+  · exact tame_foldl ids _ (fun p id => tame_cancelTask p _) p
 
 theorem tame_doStop (p : Pool) (n) : Tame p (p.doStop n).1 := by
   unfold doStop
@@ -47,7 +47,7 @@ theorem tame_cancelGroupBody (p p' : Pool) (g ids order) (h : p.cancelGroupBody 
   · simp at h
   · simp only [Option.some.injEq] at h
     subst h
-    exact Tame.trans (tame_cancelGroupMetas p g) (tame_foldl _ _ (fun p t => tame_taskCancel p t) _)
+    exact Tame.trans (tame_cancelGroupMetas p g) (tame_foldl _ _ (fun p t => tame_cancelTask p t) _)
 
 theorem tame_dropGroup (p : Pool) (g : String) :
     Tame p ({ p.popOrder.1 with groups := p.popOrder.1.groups.filter (·.1 != g) } : Pool) :=
